@@ -3,10 +3,10 @@ import z3
 
 from vf import driver
 from vf.smt import Ob
-from contracts.c import allc, errno_
+from contracts.c import allc, errno_, errno2
 
 PID = 'C22'
-FUNCS = ['save_errno_only', 'restore_errno_only', 'b_get_errno', 'b_set_errno']
+FUNCS = ['save_errno_only', 'restore_errno_only', 'b_get_errno', 'b_set_errno'] + errno2.C22_MORE
 
 BATTERY = r'''
 import sys, threading
@@ -36,6 +36,46 @@ def worker(k):
 ts = [threading.Thread(target=worker, args=(k,)) for k in range(4)]
 [t.start() for t in ts]; [t.join() for t in ts]
 if seen: bad.append("threads saw each other's errno: %r" % seen)
+# API mode: a compiled module with a global variable (reached through its generated address function), functions that
+# read / leave errno, and a callback
+import os, shutil, tempfile, importlib.util
+d = tempfile.mkdtemp(prefix="c22-")
+try:
+    fb = cffi.FFI()
+    fb.cdef("extern int counter; extern long table[4]; int see_errno(void); void leave_errno(int); int call_it(int (*f)(int), int);")
+    fb.set_source("_c22_mod", """
+        #include <errno.h>
+        int counter = 3; long table[4] = {1, 2, 3, 4};
+        int see_errno(void) { return errno; }
+        void leave_errno(int v) { errno = v; }
+        int call_it(int (*f)(int), int v) { errno = v; { int r = f(v); return r * 1000 + errno; } }
+    """)
+    path = fb.compile(tmpdir=d, verbose=False)
+    spec = importlib.util.spec_from_file_location("_c22_mod", path)
+    mod = importlib.util.module_from_spec(spec); spec.loader.exec_module(mod)
+    f2, l2 = mod.ffi, mod.lib
+    def dirty():
+        try: os.stat("/nonexistent-c22")       # leaves ENOENT in the thread's C errno
+        except OSError: pass
+    f2.errno = 12345; dirty()
+    if l2.see_errno() != 12345: bad.append("API mode: ffi.errno = 12345 is not what the C function sees")
+    f2.errno = 4321; dirty(); _ = l2.counter
+    if f2.errno != 4321: bad.append("API mode: reading a global changed ffi.errno to %d" % f2.errno)
+    f2.errno = 777; dirty(); _ = l2.counter
+    if l2.see_errno() != 777: bad.append("API mode: after reading a global the C function sees another errno")
+    l2.leave_errno(31000); dirty(); l2.counter = 5
+    if f2.errno != 31000: bad.append("API mode: errno left by C is %d after writing a global, expected 31000" % f2.errno)
+    l2.leave_errno(-9); dirty(); _ = l2.table[2]
+    if f2.errno != -9: bad.append("API mode: errno left by C is %d after indexing a global array" % f2.errno)
+    seen = []
+    @f2.callback("int(int)")
+    def cb(v):
+        seen.append(f2.errno); f2.errno = v + 1; return 2
+    r = l2.call_it(cb, 40)
+    if seen != [40]: bad.append("callback: ffi.errno inside is %r, the C caller left 40" % seen)
+    if r != 2 * 1000 + 41: bad.append("callback: the C caller sees errno %d after the callback assigned 41" % (r - 2000))
+finally:
+    shutil.rmtree(d, ignore_errors=True)
 if bad:
     print("FAIL " + " ;; ".join(bad[:4])); sys.exit(1)
 print("ok")
@@ -53,15 +93,22 @@ def main(tier, seed):
         o = Ob('misc_thread_common.h:cffi_saved_errno:declaration[thread-local storage in the real build]', [],
                z3.BoolVal(bool(ok)), kind='declaration', fn='cffi_saved_errno',
                witness={})
-        return [o], []
+        return [o] + list(errno2.structural_obligations(tu)) + [errno2.recompiler_obligation()] + errno2.export_obligations(tu), []
     return driver.run_property(
-        PID, tier, seed, c_part=(allc.R, FUNCS), more=more, concretise=concretise,
-        layout_types=('PyObject', 'PyTypeObject'),
+        PID, tier, seed, c_part=(errno2.R, FUNCS), more=more, concretise=concretise,
+        layout_types=('PyObject', 'PyTypeObject', 'GlobSupportObject', 'struct _cffi_externpy_s'),
         trusted=["errno is the int at __errno_location() (glibc); the saved errno is the C global cffi_saved_errno",
                  "thread isolation is reduced to a declaration check: clang reports cffi_saved_errno with thread-local "
                  "storage in the real build (USE__THREAD); isolation then follows from the C11 semantics of "
                  "_Thread_local, which is assumed -- no interleaving is explored",
-                 "not decided: the restore/call/save brackets inside cdata_call, general_invoke_callback, "
-                 "cffi_call_python, fetch_global_var_addr and in the C text emitted by the recompiler"],
-        technique="contract-based deductive verification of the four errno functions (ghost saved-errno state), plus "
+                 "the brackets: fetch_global_var_addr, invoke_callback and cffi_call_python are under contract over a trace "
+                 "of 'C code runs' / 'Python code runs' events (contracts/c/errno2.py); cdata_call's bracket around "
+                 "ffi_call, the text the recompiler emits around a direct call, and the export-table entries behind "
+                 "_cffi_restore_errno/_cffi_save_errno are STRUCTURAL obligations on the clang / Python AST (adjacency "
+                 "of the calls), combined with the contracts of save_errno_only / restore_errno_only",
+                 "the GIL functions preserve the calling thread's errno (assumed; cffi relies on it equally: "
+                 "save_errno() in invoke_callback runs before gil_ensure(), restore_errno() after gil_release())",
+                 "_update_cache_to_call_python / _current_interp_key: assumed not to run user code (saved errno untouched)"],
+        technique="contract-based deductive verification of the errno functions and of the three brackets under contract "
+                  "(trace of foreign-code events), structural AST obligations for the two brackets that are not, plus "
                   "an AST declaration check for thread-local storage")
